@@ -1897,4 +1897,94 @@ theorem lastIs_map (p : Nat → Bool) (g : Nat → Nat) (hp : ∀ c, p (g c) = p
         simp [lastIs]
       rw [e1, e2]; exact ih
 
+/-! ### Part R5: size families (a run of any length then a break) and the last yielded item -/
+
+theorem eight_run (n a : Nat) (s : List Nat) (ha : lineBreakChar a = false) :
+    splitlinesAux lineBreakChar false (List.replicate n a ++ s) =
+      if n = 0 then splitlinesAux lineBreakChar false s
+      else consHead a (splitlinesAux lineBreakChar false (List.replicate (n - 1) a ++ s)) := by
+  cases n with
+  | zero => simp
+  | succ n =>
+    have h10 : (a == 10) = false := by
+      cases h : a == 10
+      · rfl
+      · have : a = 10 := by simpa using h
+        subst this; simp [lineBreakChar] at ha
+    simp [List.replicate_succ, aux_cons, ha]
+
+theorem run_then_break_eight (n a : Nat) (sep : List Nat) (ha : lineBreakChar a = false)
+    (hs : sep ∈ [[13, 10], [10], [11], [12], [13], [133], [8232], [8233]]) :
+    eightSplitlines (List.replicate n a ++ sep) = [List.replicate n a] := by
+  unfold eightSplitlines
+  induction n with
+  | zero =>
+    simp only [List.replicate_zero, List.nil_append]
+    simp only [List.mem_cons, List.not_mem_nil, or_false] at hs
+    rcases hs with h | h | h | h | h | h | h | h <;> subst h <;> decide
+  | succ n ih =>
+    rw [eight_run (n + 1) a sep ha]
+    simp [ih, consHead, List.replicate_succ]
+
+theorem endsWithBreak_of_form (p sep : List Nat)
+    (hs : sep ∈ [[13, 10], [10], [11], [12], [13], [133], [8232], [8233]]) :
+    endsWithBreak (p ++ sep) = true := by
+  have hne : sep ≠ [] := by
+    intro h; subst h; simp at hs
+  unfold endsWithBreak
+  rw [lastIs_append _ _ _ hne]
+  simp only [List.mem_cons, List.not_mem_nil, or_false] at hs
+  rcases hs with h | h | h | h | h | h | h | h <;> subst h <;> decide
+
+theorem lastIs_cons_cons (p : Nat → Bool) (c d : Nat) (ds : List Nat) :
+    lastIs p (c :: d :: ds) = lastIs p (d :: ds) := by simp [lastIs]
+
+theorem getLast?_consHead_ne (c : Nat) (x : List (List Nat))
+    (h : ∀ l, x.getLast? = some l → l ≠ []) : ∀ l, (consHead c x).getLast? = some l → l ≠ [] := by
+  intro l hl
+  match x, h with
+  | [], _ => simp [consHead] at hl; subst hl; simp
+  | [l0], _ => simp [consHead] at hl; subst hl; simp
+  | l0 :: l1 :: ls, h =>
+    simp only [consHead] at hl
+    rw [List.getLast?_cons_cons] at hl
+    exact h l (by rw [List.getLast?_cons_cons]; exact hl)
+
+/-- when the text does not end with a break, the last line of `splitlines` is not empty -/
+theorem aux_last_nonempty (brk : Nat → Bool) (hb10 : brk 10 = true) (s : List Nat) :
+    ∀ f, lastIs brk s = false → ∀ l, (splitlinesAux brk f s).getLast? = some l → l ≠ [] := by
+  induction s with
+  | nil => intro f _ l hl; simp [aux_nil] at hl
+  | cons c cs ih =>
+    intro f hlast l hl
+    rw [aux_cons] at hl
+    have hcs : cs ≠ [] → lastIs brk cs = false := by
+      intro hne
+      match cs, hne with
+      | d :: ds, _ => rw [lastIs_cons_cons] at hlast; exact hlast
+    by_cases h1 : (f && c == 10) = true
+    · simp only [h1, if_true] at hl
+      by_cases hne : cs = []
+      · subst hne; simp [aux_nil] at hl
+      · exact ih false (hcs hne) l hl
+    · have h1' : (f && c == 10) = false := by simpa using h1
+      simp only [h1', Bool.false_eq_true, if_false] at hl
+      by_cases hb : brk c = true
+      · simp only [hb, if_true] at hl
+        by_cases hne : cs = []
+        · subst hne; simp [lastIs, hb] at hlast
+        · have hx : splitlinesAux brk (c == 13) cs ≠ [] := by
+            intro hx
+            rcases aux_eq_nil brk _ cs hx with h | ⟨_, h⟩
+            · exact hne h
+            · subst h; simp [lastIs, hb10] at hcs
+          match hX : splitlinesAux brk (c == 13) cs, hx with
+          | x0 :: xs, _ =>
+            rw [hX, List.getLast?_cons_cons] at hl
+            exact ih (c == 13) (hcs hne) l (by rw [hX]; exact hl)
+      · simp only [hb] at hl
+        by_cases hne : cs = []
+        · subst hne; simp [aux_nil, consHead] at hl; subst hl; simp
+        · exact getLast?_consHead_ne c _ (ih false (hcs hne)) l hl
+
 end C19
